@@ -10,7 +10,7 @@ PROPERTY_GROUPS = {
     'C10': ['drm', 'mp4'],
     'C11': ['playready', 'mp4', 'drm'],
     'C12': ['mps'],
-    'C13': ['httprange'],
+    'C13': ['httprange', 'rep'],
     'C14': ['events', 'scte35', 'mp4'],
     'C15': ['auth'],
     'C16': ['events', 'bufreader', 'httprange', 'rep', 'timing', 'mps', 'errors'],
